@@ -52,6 +52,13 @@ def run(tier, seed):
             if 'rewritten' in c and c['rewritten'] != [c['want_load1'], c['want_load2']]:
                 chk.violation(dict(stage='c17-oracle', what='per-object option writer'), 'the loads written per object (%r) sit on pulses %r when read back, they were attached to %r / %r'
                               % (c.get('attach_written'), c['rewritten'], c['want_load1'], c['want_load2']), r['spec'])
+            if 'skin' in c and c['skin'] != c['want_skin']:
+                chk.violation(dict(stage='c17-oracle', what='load on all of one object'), 'a skin-effect load given for the object with tag %d sits on the pulses %r (with multiplicity), '
+                              'the pulses with a half on that object are %r' % (c['skin_tag'], c['skin'], c['want_skin']), dict(r['spec'], argv_loads=c['argv']))
+            if c.get('matrix_dev') and (c['matrix_dev'][0] > 1e-6 or c.get('matrix_other', 0) > 1e-6):
+                chk.violation(dict(stage='c17-oracle', what='attachments that do not act'), 'attachments %r: the loaded matrix differs from the unloaded one on pulse %d by something else than the '
+                              'sum of the impedances attached there (relative deviation %.3g; on pulses without a load %.3g)' % (
+                              [a for a in c['argv'] if 'attach' in a], c['matrix_dev'][1] + 1, c['matrix_dev'][0], c.get('matrix_other', 0)), dict(r['spec'], argv_loads=c['argv']))
         tags = o['tags']
         if tags != sorted(tags) or len(set(tags)) != len(tags):
             chk.violation(dict(stage='c17-oracle', what='tag order'), 'objects not ordered by distinct tags: %r' % tags, r['spec'])
